@@ -153,15 +153,39 @@ def tlc_counts(out):
     return 0, 0
 
 
+def printed_values(out):
+    """All top-level `<< ... >>` values printed by PrintT; TLC pretty-prints long
+    tuples over several lines, so a value extends until its brackets balance."""
+    lines = out.splitlines()
+    i = 0
+    while i < len(lines):
+        line = lines[i]
+        if line.startswith("<<"):
+            buf = line
+            depth = _depth(line)
+            while depth > 0 and i + 1 < len(lines):
+                i += 1
+                buf += " " + lines[i].strip()
+                depth += _depth(lines[i])
+            yield buf
+        i += 1
+
+
+_strlit = re.compile(r'"(?:[^"\\]|\\.)*"')
+
+
+def _depth(line):
+    bare = _strlit.sub('""', line)
+    return bare.count("<<") - bare.count(">>")
+
+
 def tuples(out, head):
     """All printed tuples whose first element is `head`."""
     res = []
-    pref = f'<<"{head}"'
-    for line in out.splitlines():
-        if line.startswith(pref):
-            v = parse_tla(line)
-            if v:
-                res.append(v)
+    for text in printed_values(out):
+        v = parse_tla(text)
+        if isinstance(v, list) and v and v[0] == head:
+            res.append(v)
     return res
 
 
@@ -247,30 +271,44 @@ def _val_chunk(spec_dir, module, cfg, path, n_events, props, tag, extra_env, hea
     return outs, overflow
 
 
-def validate(spec_dir, module, cfg, events, props, tag, chunks=8, extra_env=None, cost=None, heads=()):
-    """VAL: split events into chunks, one single-worker TLC per chunk in parallel."""
+def validate(spec_dir, module, cfg, events, props, tag, chunks=8, extra_env=None, cost=None, heads=(), group=None):
+    """VAL: split events into chunks, one single-worker TLC per chunk in parallel.
+    `group(ev)` keeps all events with the same key contiguous, in order, in one chunk
+    (stateful traces: one behaviour per group)."""
     v = Val()
     t0 = time.time()
     if not events:
         return v
     d = rundir(tag)
-    chunks = max(1, min(chunks, len(events)))
-    # greedy balance by cost
-    order = sorted(range(len(events)), key=lambda i: -(cost[i] if cost else 1))
+    # units: lists of event indices that must stay together
+    if group:
+        units, index = [], {}
+        for i, e in enumerate(events):
+            k = group(e)
+            if k not in index:
+                index[k] = len(units)
+                units.append([])
+            units[index[k]].append(i)
+    else:
+        units = [[i] for i in range(len(events))]
+    ucost = [sum((cost[i] if cost else 1) for i in u) for u in units]
+    chunks = max(1, min(chunks, len(units)))
+    order = sorted(range(len(units)), key=lambda u: -ucost[u])
     bins = [[] for _ in range(chunks)]
     load = [0] * chunks
-    for i in order:
+    for u in order:
         k = load.index(min(load))
-        bins[k].append(i)
-        load[k] += (cost[i] if cost else 1)
+        bins[k].append(u)
+        load[k] += ucost[u]
     jobs = []
-    for k, idxs in enumerate(bins):
-        if not idxs:
+    for k, us in enumerate(bins):
+        if not us:
             continue
-        idxs.sort()
+        us.sort()
+        idxs = [i for u in us for i in units[u]]
         path = os.path.join(d, f"chunk{k}.ndjson")
         write_ndjson(path, [events[i] for i in idxs])
-        ids = [str(events[i].get("id", i)) for i in idxs]
+        ids = [str(events[i].get("id", events[i].get("run", i))) for i in idxs]
         jobs.append((path, len(idxs), ids))
     with ThreadPoolExecutor(max_workers=len(jobs)) as ex:
         futs = [ex.submit(_val_chunk, spec_dir, module, cfg, p, n, props, tag, extra_env, heads, ids)
@@ -282,7 +320,10 @@ def validate(spec_dir, module, cfg, events, props, tag, chunks=8, extra_env=None
                 g, dst = tlc_counts(out)
                 v.generated += g
                 v.distinct += dst
-                v.rejects += tuples(out, "REJECT")
+                rj = tuples(out, "REJECT")
+                if len(rj) != len(re.findall(r'<<\s*"REJECT"', out)):
+                    raise ToolError("REJECT lines printed by TLC could not all be parsed")
+                v.rejects += rj
                 v.stats += tuples(out, "STAT")
                 v.skips += tuples(out, "SKIP")
                 for h in heads:
@@ -290,9 +331,8 @@ def validate(spec_dir, module, cfg, events, props, tag, chunks=8, extra_env=None
                 for a in tuples(out, "ACCEPTED"):
                     v.accepted += a[1]
     v.wall = time.time() - t0
-    expected = len(events) - len(v.overflow_ids)
-    if v.accepted != expected:
-        raise ToolError(f"VAL {module}: consumed {v.accepted} of {expected} events")
+    if not v.overflow_ids and v.accepted != len(events):
+        raise ToolError(f"VAL {module}: consumed {v.accepted} of {len(events)} events")
     return v
 
 
